@@ -127,6 +127,28 @@ impl<'a> Dispatcher<'a, '_> {
     }
 }
 
+#[cfg(feature = "verif-hooks")]
+impl<'a, 'b> Dispatcher<'a, 'b> {
+    /// Verification hook: see `SendDispatcher::verif_visit`.
+    pub fn verif_visit<'s>(
+        &'s mut self,
+        f: &mut dyn FnMut(usize, usize, usize, &'s mut (dyn for<'x> RunNow<'x> + Send + 'a)),
+    ) {
+        self.inner.verif_visit(f);
+    }
+
+    /// Verification hook: hands every thread-local system to `f` with its
+    /// position in the thread-local list.
+    pub fn verif_visit_thread_local<'s>(
+        &'s mut self,
+        f: &mut dyn FnMut(usize, &'s mut (dyn for<'x> RunNow<'x> + 'b)),
+    ) {
+        for (i, sys) in self.thread_local.iter_mut().enumerate() {
+            f(i, &mut **sys);
+        }
+    }
+}
+
 impl RunNow<'_> for Dispatcher<'_, '_> {
     fn run_now(&mut self, world: &World) {
         self.dispatch(world);
